@@ -1,6 +1,6 @@
 SPECIFICATION Spec
 CONSTANTS LeafVals = {0, 2, 3}
- RhsVals = {0, 1, 2}
+ RhsVals = {0, 1}
  FullEq = FALSE
  Guarded = TRUE
 INVARIANTS TypeOK ValTotal Sound EvAgrees Laws
